@@ -103,4 +103,76 @@ func c11Extra(outDir string, meta *Meta) {
 		}
 	}
 	os.RemoveAll(dir)
+	// ---- (3) a callback (and other whole-file elements) in another directory: its relative references are read from its own directory ----
+	{
+		root := `{"openapi":"3.0.3","info":{"title":"r","version":"1"},"paths":{"/s":{"post":{"responses":{"200":{"description":"ok"}},` +
+			`"callbacks":{"onEvent":{"$ref":"hooks/onEvent.json"}}}}}}`
+		hook := `{"{$request.body#/url}":{"post":{"requestBody":{"content":{"application/json":{"schema":{"$ref":"schemas/event.json"}}}},` +
+			`"responses":{"200":{"description":"ok","content":{"application/json":{"schema":{"$ref":"../../shared/ack.json"}}}}}}}}`
+		leaf := `{"type":"string"}`
+		store := map[string]string{"/work/project/api/root.json": root, "/work/project/api/hooks/onEvent.json": hook,
+			"/work/project/api/hooks/schemas/event.json": leaf, "/work/project/shared/ack.json": leaf,
+			// what a wrong base would read
+			"/work/project/api/schemas/event.json": leaf, "/work/shared/ack.json": leaf}
+		want := map[string]bool{"/work/project/api/root.json": true, "/work/project/api/hooks/onEvent.json": true, "/work/project/api/hooks/schemas/event.json": true, "/work/project/shared/ack.json": true}
+		var reads []string
+		loader := openapi3.NewLoader()
+		loader.IsExternalRefsAllowed = true
+		loader.ReadFromURIFunc = func(_ *openapi3.Loader, u *url.URL) ([]byte, error) {
+			reads = append(reads, u.Path)
+			if d, ok := store[u.Path]; ok {
+				return []byte(d), nil
+			}
+			return nil, fmt.Errorf("not found: %s", u)
+		}
+		desc := map[string]any{"root": "/work/project/api/root.json", "callback_file": "hooks/onEvent.json", "refs_inside": []string{"schemas/event.json", "../../shared/ack.json"}}
+		meta.Histogram["whole-file callback cases"]++
+		var err error
+		pn := catchPanic(func() { _, err = loader.LoadFromURI(&url.URL{Path: "/work/project/api/root.json"}) })
+		if pn != nil {
+			viol("whole-file-callback:panic", desc, fmt.Sprint(pn))
+		} else {
+			for _, rd := range reads {
+				if !want[rd] {
+					viol("whole-file-callback:location-read-that-no-reference-designates", desc, fmt.Sprintf("reads: %s (error: %v)", strings.Join(reads, ", "), err))
+					break
+				}
+			}
+		}
+	}
+	// ---- (4) LoadFromFile: the root that is read is the file that was named, whatever characters its name has ----
+	dir2, _ := filepath.Abs(filepath.Join(outDir, "names"))
+	os.RemoveAll(dir2)
+	must(os.MkdirAll(filepath.Join(dir2, "a"), 0o755))
+	docOf := func(title string) []byte {
+		return []byte(`{"openapi":"3.0.3","info":{"title":"` + title + `","version":"1"},"paths":{}}`)
+	}
+	for _, decoy := range []string{"v1.json", "a/b.json", "spec", "x y.json"} {
+		must(os.WriteFile(filepath.Join(dir2, decoy), docOf("decoy"), 0o644))
+	}
+	for _, name := range []string{"v%31.json", "a%2Fb.json", "spec#draft.json", "spec?.json", "x%20y.json", "plain.json", "100%.json"} {
+		must(os.WriteFile(filepath.Join(dir2, name), docOf("named"), 0o644))
+		var reads []string
+		loader := openapi3.NewLoader()
+		loader.ReadFromURIFunc = func(l *openapi3.Loader, u *url.URL) ([]byte, error) {
+			reads = append(reads, u.Path)
+			return openapi3.DefaultReadFromURI(l, u)
+		}
+		desc := map[string]any{"load_from_file": name, "next_to": []string{"v1.json", "a/b.json", "spec", "x y.json"}}
+		meta.Histogram["file name cases"]++
+		var doc *openapi3.T
+		var err error
+		if pn := catchPanic(func() { doc, err = loader.LoadFromFile(filepath.Join(dir2, name)) }); pn != nil {
+			viol("file-name:panic", desc, fmt.Sprint(pn))
+			continue
+		}
+		if err != nil {
+			viol("file-name:the-named-root-does-not-load", desc, err.Error())
+			continue
+		}
+		if doc.Info == nil || doc.Info.Title != "named" || len(reads) != 1 || reads[0] != filepath.ToSlash(filepath.Join(dir2, name)) {
+			viol("file-name:another-file-read-instead-of-the-root", desc, "reads: "+strings.Join(reads, ", "))
+		}
+	}
+	os.RemoveAll(dir2)
 }
